@@ -538,8 +538,9 @@ def main(argv):
         if fm[1] == "ok" and fm[4] != "-" and len(dline) > 20:
             # non-trivial: well-typed and selects at least one entity
             distinct.add((hash(dline), case.split()[2]))
-        if len(samples) < 4 and nq % 997 == 1:
-            samples.append(dict(filter=unhex(case.split()[2]).decode("utf-8", "replace"), impl=i, model=m))
+        if (len(samples) < 6 and nq % 997 == 1) or (len(samples) < 3 and fm[1] == "ok" and fm[4] != "-" and nq > 14000):
+            samples.append(dict(store=case.split()[1], filter=unhex(case.split()[2]).decode("utf-8", "replace"),
+                                term=" ".join(case.split()[3:])[:400], impl=i, model=m, dataset=dline[:600]))
         v = verdict(i, m)
         if v is None:
             continue
